@@ -18,11 +18,12 @@ CHECKS = {
         note=TRUSTED + "; hash collisions excluded by assumption."),
     "C01": dict(
         level="model_checking",
-        technique="TLA+ spec (Relayer.tla QuorumOk) + TLC exhaustive case table + replay as real BLS-signed transactions into the real app + TLC trace validation",
+        technique="TLA+ spec (Relayer.tla QuorumOk) + TLC exhaustive case table + replay as real BLS-signed transactions into the real app + TLC trace validation of the table and of random dynamic-membership histories (joins, removals, elections, shared vote keys)",
         text="TLC enumerates every bitmap x signer-subset x corruption case for groups of 0..N voters and checks the quorum theorems; "
              "every case is executed as a real transaction (real BLS aggregate over the real sign-doc) by FinalizeBlock of the "
              "unmodified application, and TLC validates the per-transaction verdicts and the full projected relayer state (plus a "
-             "digest of the bridge store for 'changes no state at all') against the specification.",
+             "digest of the bridge store for 'changes no state at all') against the specification; random histories in which voters join by MsgNewVoter "
+             "(some holding the same vote key as a founding member), leave and are elected are validated vote by vote against the same QuorumOk.",
         note=TRUSTED + "; BLS soundness assumed."),
     "C02": dict(
         level="model_checking",
